@@ -57,15 +57,15 @@ inductive Pc
   | parking                           -- state := WAITING
   | parked                            -- successor wrote scratch := READY_TO_WAKE
   | waitDone                          -- consumed RAISED, or resumed and cleared scratch
-  | rLoop (strict : Bool)
-  | rLdC (strict : Bool) (c : Nat)
-  | rLdH (strict : Bool) (c : Nat) (h : H)
-  | rNext (strict : Bool) (c n : Nat) (x : H)   -- read h->next = x
-  | rPopped (strict : Bool) (n : Nat)           -- CAS2 released node n
-  | rGotData (strict : Bool) (n g : Nat)
-  | rGaveNode (strict : Bool) (g : Nat)
-  | rReady (strict : Bool) (g : Nat)
-  | rDone (strict : Bool) (r : Bool)
+  | rLoop                               -- (whether it is raise or raise_strict: `St.strict`)
+  | rLdC (c : Nat)
+  | rLdH (c : Nat) (h : H)
+  | rNext (c n : Nat) (x : H)           -- read h->next = x
+  | rPopped (n : Nat)                   -- CAS2 released node n
+  | rGotData (n g : Nat)
+  | rGaveNode (g : Nat)
+  | rReady (g : Nat)
+  | rDone (r : Bool)
   deriving Repr, DecidableEq, Inhabited
 
 inductive Ev
@@ -115,6 +115,8 @@ structure St where
   fnode : Nat → Nat
   scratch : Nat → Bool
   pc : Nat → Pc
+  /-- is the raise a fiber is executing `fiber_multi_signal_raise_strict`? -/
+  strict : Nat → Bool
   /-- ghost: nodes listed, top first -/
   stack : List Nat
   /-- ghost: number of successful CAS2s -/
@@ -133,7 +135,7 @@ structure St where
 
 def init (nodeOf : Nat → Nat) : St :=
   { counter := 0, head := .nil, next := fun _ => .nil, ndata := fun _ => 0, fnode := nodeOf,
-    scratch := fun _ => false, pc := fun _ => .idle, stack := [], updates := 0,
+    scratch := fun _ => false, pc := fun _ => .idle, strict := fun _ => false, stack := [], updates := 0,
     parks := fun _ => 0, wakes := fun _ => 0, waker := fun _ => none, latched := 0, coalesced := 0, consumed := 0,
     released := 0, tokens := 0, tk := fun _ => .idle }
 
@@ -166,17 +168,17 @@ def step (s : St) : Ev → Option St
   | .ldC f c =>
     match s.pc f with
     | .wLoop n => if c = s.counter then some { s with pc := upd s.pc f (.wLdC n c) } else none
-    | .rLoop st => if c = s.counter then some { s with pc := upd s.pc f (.rLdC st c) } else none
+    | .rLoop => if c = s.counter then some { s with pc := upd s.pc f (.rLdC c) } else none
     | _ => none
   | .ldH f h =>
     match s.pc f with
     | .wLdC n c => if h = s.head then some { s with pc := upd s.pc f (.wLdH n c h) } else none
-    | .rLdC st c =>
+    | .rLdC c =>
       if h = s.head then
-        match h, st with
-        | .node _, _ => some { s with pc := upd s.pc f (.rLdH st c h) }
-        | _, false => some { s with pc := upd s.pc f (.rLdH st c h) }
-        | _, true => some { s with pc := upd s.pc f (.rLoop true) }      -- strict: nobody to wake, spin
+        match h, s.strict f with
+        | .node _, _ => some { s with pc := upd s.pc f (.rLdH c h) }
+        | _, false => some { s with pc := upd s.pc f (.rLdH c h) }
+        | _, true => some { s with pc := upd s.pc f .rLoop }      -- strict: nobody to wake, spin
       else none
     | _ => none
   | .wNext f n h =>
@@ -187,8 +189,8 @@ def step (s : St) : Ev → Option St
     | _ => none
   | .rNext f n x =>
     match s.pc f with
-    | .rLdH st c (.node m) =>
-      if n = m ∧ x = s.next m then some { s with pc := upd s.pc f (.rNext st c m x) } else none
+    | .rLdH c (.node m) =>
+      if n = m ∧ x = s.next m then some { s with pc := upd s.pc f (.rNext c m x) } else none
     | _ => none
   | .cas2 f ec eh nc nh ok =>
     if ok ≠ casOk s ec eh ∨ nc ≠ ec + 1 then none else
@@ -206,21 +208,21 @@ def step (s : St) : Ev → Option St
                                  parks := upd s.parks f (s.parks f + 1), pc := upd s.pc f .wListed }
         else some { s with pc := upd s.pc f (.wLoop n) }
       else none
-    | .rLdH st c h =>
+    | .rLdH c h =>
       -- latch (NULL → RAISED) or coalesce (RAISED → RAISED); never for a node, never strict
-      if st = false ∧ ec = c ∧ eh = h ∧ (h = .nil ∨ h = .raised) ∧ nh = .raised then
+      if s.strict f = false ∧ ec = c ∧ eh = h ∧ (h = .nil ∨ h = .raised) ∧ nh = .raised then
         if ok then some { s with counter := nc, head := .raised, updates := s.updates + 1,
                                  latched := s.latched + (if h = .nil then 1 else 0),
                                  coalesced := s.coalesced + (if h = .raised then 1 else 0),
-                                 pc := upd s.pc f (.rDone st false) }
-        else some { s with pc := upd s.pc f (.rLoop st) }
+                                 pc := upd s.pc f (.rDone false) }
+        else some { s with pc := upd s.pc f .rLoop }
       else none
-    | .rNext st c n x =>
+    | .rNext c n x =>
       if ec = c ∧ eh = .node n ∧ nh = x then
         if ok then some { s with counter := nc, head := x, updates := s.updates + 1, stack := s.stack.drop 1,
                                  released := s.released + 1, waker := upd s.waker n (some f),
-                                 pc := upd s.pc f (.rPopped st n) }
-        else some { s with pc := upd s.pc f (.rLoop st) }
+                                 pc := upd s.pc f (.rPopped n) }
+        else some { s with pc := upd s.pc f .rLoop }
       else none
     | _ => none
   | .wStateWaiting f =>
@@ -243,36 +245,39 @@ def step (s : St) : Ev → Option St
   | .callRaise f st =>
     if s.pc f = .idle then
       match s.tk f with
-      | .idle => some { s with pc := upd s.pc f (.rLoop st), tk := upd s.tk f .raising }
-      | .published => if st then none else some { s with pc := upd s.pc f (.rLoop st), tk := upd s.tk f .raising }
-      | .tookSaw v => if st ∨ v = 0 then none else some { s with pc := upd s.pc f (.rLoop st), tk := upd s.tk f .tookRaising }
+      | .idle => some { s with pc := upd s.pc f .rLoop, strict := upd s.strict f st, tk := upd s.tk f .raising }
+      | .published =>
+        if st then none else some { s with pc := upd s.pc f .rLoop, strict := upd s.strict f st, tk := upd s.tk f .raising }
+      | .tookSaw v =>
+        if st ∨ v = 0 then none
+        else some { s with pc := upd s.pc f .rLoop, strict := upd s.strict f st, tk := upd s.tk f .tookRaising }
       | _ => none
     else none
   | .rData f n g =>
     match s.pc f with
-    | .rPopped st m => if n = m ∧ g = s.ndata m ∧ g ≠ 0 then some { s with pc := upd s.pc f (.rGotData st m g) } else none
+    | .rPopped m => if n = m ∧ g = s.ndata m ∧ g ≠ 0 then some { s with pc := upd s.pc f (.rGotData m g) } else none
     | _ => none
   | .wNode f g n =>
     match s.pc f with
-    | .rGotData st m g' => if g = g' ∧ n = m then some { s with fnode := upd s.fnode g n, pc := upd s.pc f (.rGaveNode st g) } else none
+    | .rGotData m g' => if g = g' ∧ n = m then some { s with fnode := upd s.fnode g n, pc := upd s.pc f (.rGaveNode g) } else none
     | _ => none
   | .rScratch f g ready =>
     match s.pc f with
-    | .rGaveNode st g' =>
+    | .rGaveNode g' =>
       if g = g' ∧ ready = s.scratch g then
-        if ready then some { s with pc := upd s.pc f (.rReady st g) } else some s
+        if ready then some { s with pc := upd s.pc f (.rReady g) } else some s
       else none
     | _ => none
   | .wStateReady f g =>
     match s.pc f with
-    | .rReady st g' =>
+    | .rReady g' =>
       if g = g' then some { s with wakes := upd s.wakes g (s.wakes g + 1), waker := upd s.waker g none,
-                                   pc := upd s.pc f (.rDone st true) } else none
+                                   pc := upd s.pc f (.rDone true) } else none
     | _ => none
   | .retRaise f st r =>
     match s.pc f with
-    | .rDone st' r' =>
-      if st = st' ∧ r = r' then
+    | .rDone r' =>
+      if st = s.strict f ∧ r = r' then
         match s.tk f with
         | .raising => some { s with pc := upd s.pc f .idle, tk := upd s.tk f .idle }
         | .tookRaising => some { s with pc := upd s.pc f .idle, tk := upd s.tk f .takeEnd }
